@@ -29,7 +29,7 @@ inductive Level | command | space     -- COMMAND_PARSING, SPACE_PARSING
 
 def inRanges (t : List (Nat × Nat)) (c : Char) : Bool := t.any fun r => r.1 ≤ c.toNat && c.toNat ≤ r.2
 
-/-- `str.isspace` -/
+/-- `filter_env.isspace`: the ASCII subset of `str.isspace` (table generated from the code's own predicate) -/
 def isSpace (c : Char) : Bool := inRanges Generated.C34.spaceRanges c
 /-- `str.isalnum` -/
 def isAlnum (c : Char) : Bool := inRanges Generated.C34.alnumRanges c
@@ -608,5 +608,17 @@ def mainRunNames (data : List Char) (vtoks ftoks : List (List Char)) (vwl fwl : 
       match mainRun data vm fm with
       | .ok r => .ok r
       | .error e => .error (.scan e)
+
+/-! ## the bytes written
+
+`process_scope` writes every window as `out.write(buff[a:b].encode("utf-8"))`: the window is cut from the *text* (character
+offsets) and encoded afterwards, window by window. -/
+
+/-- `str.encode("utf-8")` (Lean's `Char` has no surrogates, like the text Python decoded from the dump) -/
+def utf8 (s : List Char) : List UInt8 := s.flatMap String.utf8EncodeChar
+
+/-- the byte strings handed to `out.write`, concatenated: one `buff[a:b].encode("utf-8")` per window -/
+def writtenBytes (data : List Char) (r : ScopeResult) : List UInt8 :=
+  (r.windows.map fun w => utf8 (slice (data ++ ['\x00']) w.1 w.2)).flatten
 
 end Pkgcore.C34
